@@ -20,7 +20,7 @@ from symx import Symx, Budget, render
 
 META = {
     'level': 'other',
-    'decides': 'that the inspector wrappers delegate exactly once and pass results through, the instruction-pointer bracket, and that the three observing inspectors do not write through the interpreter/context and return the outcome they received (with the one justified exception)',
+    'decides': 'that the inspector wrappers delegate exactly once and pass results through, the instruction-pointer bracket, and that the three observing inspectors do not write through the interpreter/context and return the outcome they received (with the one justified exception); that each handler wrapper delegates to the previous handler of the slot it replaces',
     'does_not_decide': 'equality of results, gas, logs and state with and without an inspector over executions',
     'explanation': 'Path enumeration of the wrapper closures (delegate counts, returned value), effect inventory of the Inspector impl methods (stores and &mut-taking calls on the observed parameters), origin of returned outcomes, table disjointness shared with C09.',
 }
